@@ -53,7 +53,10 @@ pub async fn run(seed: u64, sched: Rc<Sched>, keep_log: bool) -> (CaseResult, Ve
     // Peers: availability watch + a script of failure decisions.
     let mut avail_tx = vec![];
     let mut peers = vec![];
+    // Per peer: is its worker inside `accept_block` right now?
+    let idle: Vec<Arc<AtomicBool>> = (0..npeers).map(|_| Arc::new(AtomicBool::new(false))).collect();
     for peer in 0..npeers {
+        let my_idle = idle[peer].clone();
         let first = rng.gen_range(0..3u64);
         let (tx, rx) = sync::watch::channel(state(first, None));
         let tx = Arc::new(tx);
@@ -73,7 +76,9 @@ pub async fn run(seed: u64, sched: Rc<Sched>, keep_log: bool) -> (CaseResult, Ve
                 } else {
                     root.with_timeout(time::Duration::milliseconds(prng.gen_range(20..400)))
                 };
+                my_idle.store(true, Ordering::SeqCst);
                 let r = queue.accept_block(&actx, &mut rx).await;
+                my_idle.store(false, Ordering::SeqCst);
                 let Ok((number, done)) = r else {
                     continue;
                 };
@@ -157,6 +162,33 @@ pub async fn run(seed: u64, sched: Rc<Sched>, keep_log: bool) -> (CaseResult, Ve
         if matches!(e, DriveEnd::Stuck) && phase_rounds > prefix_rounds + 50 {
             // Everything is blocked although every peer could serve every request.
             end = e;
+            break;
+        }
+        // Quiescence oracle (lost wake-up): when nothing at all is runnable, a worker sitting in
+        // `accept_block` whose peer has announced the lowest outstanding request must have been
+        // handed that request - every change of the minimum wakes the workers.
+        sched.settle().await;
+        if sched.ready_len() == 0 {
+            hist.probe("quiescent_point_checked");
+            if let Some(lowest) = queue.current_blocks().first().copied() {
+                for peer in 0..npeers {
+                    let first = if fair.load(Ordering::SeqCst) { 0 } else { avail_tx[peer].1 };
+                    let Some(last) = lasts[peer] else { continue };
+                    if idle[peer].load(Ordering::SeqCst) && first <= lowest && lowest <= last {
+                        hist.violation(
+                            "C19",
+                            "lost_wakeup",
+                            format!(
+                                "nothing is runnable, block {lowest} is the lowest outstanding request (queue {:?}), peer {peer} has announced [{first}, {last}] and its worker sits idle in accept_block",
+                                queue.current_blocks()
+                            ),
+                        );
+                        break;
+                    }
+                }
+            }
+        }
+        if !hist.lock().unwrap().violations.is_empty() {
             break;
         }
         phase_rounds += 1;
